@@ -11,6 +11,7 @@ EXPLANATION = ("C13: the device forwards messages untouched (no message mutator 
                "buffer holds NNI_MAX_MAX_TTL+1 words; header writes are dominated by the capacity test; raw senders pop one "
                "routing word after the length test."
                " Also: device_cb frees the path message only under its state test; a reflector device runs one forwarder (R6); the hop limit is the socket's current value.")
+EXPLANATION += " Round 3: the raw sockets' pumps a device forwards through survive a dropped message (R7 = C11.R9); the hop loop's panicking append on wire data is reported."
 
 
 def on_cycle(fn, pos):
